@@ -106,6 +106,11 @@ fn is_ed25519_key_id(kid: &str) -> bool {
 /// Reference `verify_event` (DESIGN App. A.1 + A.2).
 fn model(orig: &Orig, ev: &Map<String, Value>, map: &KeyEntries) -> Exp {
     let v = orig.v;
+    // what the *signed* event redacts to is itself Unspecified (v11 third_party_invite without
+    // `signed`, DESIGN §1.3): nothing about the signed bytes can be demanded
+    if matches!(red_canon(v, &orig.signed), Err(Exp::Unspecified)) {
+        return Exp::Unspecified;
+    }
     let rc = match red_canon(v, ev) {
         Ok(c) => c,
         Err(e) => return e,
